@@ -29,7 +29,7 @@ func init() {
 		MinEvals:    floor(3200, 110000),
 		MinDistinct: floor(1500, 40000),
 		RequiredCells: func(string) []string {
-			cells := []string{"twins", "twins/true-then-false", "twins/false-then-true", "twins/same-policy", "twins/different-links", "scale", "scale/long-chain", "scale/many-statements", "scale/history", "heterogeneous", "heterogeneous/some-statement-false", "hook/returns-satisfying", "hook/returns-violating", "hook/returns-empty", "hook/returns-subset", "hook/error", "hook/sees-token-args", "mono/add-statement", "mono/add-link", "pattern/only-root", "pattern/only-leaf", "all-true"}
+			cells := []string{"deep-nesting", "twins", "twins/true-then-false", "twins/false-then-true", "twins/same-policy", "twins/different-links", "scale", "scale/long-chain", "scale/many-statements", "scale/history", "heterogeneous", "heterogeneous/some-statement-false", "hook/returns-satisfying", "hook/returns-violating", "hook/returns-empty", "hook/returns-subset", "hook/error", "hook/sees-token-args", "mono/add-statement", "mono/add-link", "pattern/only-root", "pattern/only-leaf", "all-true"}
 			for _, lp := range []string{"first", "middle", "last"} {
 				for _, sp := range []string{"first", "middle", "last", "only"} {
 					cells = append(cells, "false/link="+lp+"/stmt="+sp)
@@ -133,6 +133,7 @@ func runC03(w *mon.W) {
 	c03Heterogeneous(w)
 	c03Scale(w)
 	c03Twins(w)
+	c03Deep(w)
 	r := w.Rng
 	total := w.Share(w.Pick(10000, 100000))
 	for it := 0; it < total; it++ {
@@ -732,6 +733,66 @@ func c03Twins(w *mon.W) {
 			d["true_statement"] = a.String()
 			d["false_statement"] = b.String()
 			w.Violate("unsound/twin-statements/"+order+"/"+val.K.String(), fmt.Sprintf("ExecutionAllowed = nil although statement %s is false on the arguments %s (its look-alike %s is true)", b, s.Args, a), d)
+		}
+	}
+}
+
+// c03Deep: a policy statement nested under 17..300 not / and / or statements in some link of
+// an otherwise conforming chain; the arguments make the leaf true or false, the verdict must
+// follow the classical value of the whole statement at every depth.
+func c03Deep(w *mon.W) {
+	r := w.Rng
+	depths := []int{17, 32, 33, 34, 64, 65, 128, 129, 130, 200, 300}
+	idx := 0
+	for _, d := range depths {
+		for variant := 0; variant < 4; variant++ {
+			idx++
+			if !w.Mine(idx) {
+				continue
+			}
+			n := 1 + r.IntN(3)
+			s := chain.Conformant(r, n, 0)
+			role := "user"
+			if variant%2 == 0 {
+				role = "admin"
+			}
+			s.Args = ref.Map(ref.E("role", ref.Str(role)), ref.E("n", ref.Int(1)))
+			st := ref.Stmt{Kind: "==", Sel: ref.Sel{{Kind: ref.SField, Name: "role"}}, Val: ref.Str("admin")}
+			for i := 0; i < d; i++ {
+				if variant < 2 || i%3 == 0 {
+					st = ref.Stmt{Kind: "not", Subs: []ref.Stmt{st}}
+				} else if i%3 == 1 {
+					st = ref.Stmt{Kind: "and", Subs: []ref.Stmt{st}}
+				} else {
+					st = ref.Stmt{Kind: "or", Subs: []ref.Stmt{st}}
+				}
+			}
+			k := r.IntN(n)
+			s.Links[k].Pol = ref.Policy{st}
+			s.Links[k].PolIPLD = variant%2 == 1
+			tri, _ := s.PoliciesOK(s.Args)
+			if tri == ref.Unresolved {
+				continue
+			}
+			s.Wire = r.IntN(3)
+			b, err := s.Build(r)
+			if err != nil {
+				w.Count("deep/scenario-not-realisable", 1)
+				continue
+			}
+			e := allowed(b.Inv, b.Loader, variant == 3)
+			w.Eval(1)
+			w.Cover("deep-nesting")
+			w.Distinct("deep", d, variant, k, n)
+			if e == nil && tri == ref.False {
+				dd := s.Describe()
+				dd["depth"] = d
+				delete(dd, "proofs_leaf_to_root")
+				w.Violate("unsound/deep-nesting", fmt.Sprintf("ExecutionAllowed = nil although the statement of link %d - role == \"admin\" under %d enclosing not/and/or statements - is false for role=%q", k, d, role), dd)
+			}
+			if e != nil && tri == ref.True {
+				w.Count("conforming_but_denied(judged_by_C05)", 1)
+			}
 		}
 	}
 }
